@@ -13,7 +13,7 @@ VARIABLES op, ni, hi
 S(t, v) == [t |-> t, v |-> v]
 Pool == << S("null", ""), S("bool", "true"), S("bool", "false"), S("bool", "True"), S("bool", "FALSE"),
            S("int", "0"), S("int", "1"), S("int", "-1"), S("int", "2"), S("int", "10"), S("int", "100"),
-           S("float", "1.5"), S("float", "0.5"), S("float", "2.0"), S("float", "-1.5"), S("float", "1.50"), S("float", "10.25"),
+           S("float", "1.5"), S("float", "0.5"), S("float", "2.0"), S("float", "1.0"), S("float", "0.0"), S("float", "-1.5"), S("float", "1.50"), S("float", "10.25"),
            S("str", "1"), S("str", "10"), S("str", "1.5"), S("str", "01"), S("str", "+1"), S("str", "2.0"),
            S("str", ""), S("str", "a"), S("str", "ab"), S("str", "b"), S("str", "abc"), S("str", "A"), S("str", "B"),
            S("str", "true"), S("str", "True"), S("str", "None"), S("str", "null"), S("str", "1a"), S("str", "a b"),
